@@ -26,9 +26,9 @@ from . import common as C
 PID = "C10"
 META = {
     "category": "proof",
-    "technique": "Lean 4 proofs over an executable model of the numeric tower (fixnum / bignum / 32-bit ratio / big ratio with the IntoSteelVal canonicalisation and the checked-then-promote case analysis of numbers.rs), refinement to Lean's Rat for all operands; arm tables and repair flags regenerated from the Rust source; correspondence of the real engine with model and specification over boundary operand tuples through 8-12 call shapes",
-    "level_text": "Theorems (SteelVerif/C10/Props.lean), for ALL canonical exact operands of any magnitude: add, subtract, negate, multiply, divide, quotient, remainder, modulo, abs, gcd, lcm, expt (exact exponent), numerator, denominator and exact-integer-sqrt of the model return a value that denotes the mathematically exact result (Lean Rat / Int) and is canonical (fixnum iff it fits 64 bits, ratio reduced with denominator > 1, 32-bit ratio iff both parts fit, integral ratios are integers); division by zero is an error exactly when the divisor is zero; = < > <= >= decide the order of the denoted values; two canonical values that denote the same number are identical; the specialised immediate-operand paths equal the generic ones. Where the code at the pinned commit is defective (abs / reciprocal / expt on the most negative 64-bit and 32-bit values and negative bases) the full statement is proved for the repaired code and a guarded `_partial` statement plus a `decide`d counterexample for the code as it is; the Rust source decides which applies (translator flags). The model is tied to the Rust on every run by the translator (every pair of exact kinds has a computing match arm in add_two, multiply_two, number_equality, partial_cmp, ...) and by executing the real engine on boundary operand tuples through every call shape and comparing printed results with model and specification.",
-    "level_note": "Trusted: Lean kernel (axioms propext, Classical.choice, Quot.sound only), the hand-written model (num-bigint / Ratio<BigInt> taken as exact, Ratio<i32>, i32::gcd, isize/i32 checked and overflowing operations modelled from their source), the translator's pattern extraction, the harness, driver and comparison. Mixed exact/inexact arithmetic, number<->string conversion, floor/round/truncate on ratios, huge exponents (|e| > 4096 or bignum exponents other than base 0) are not covered by theorems. Overflow is modelled as in a build with overflow checks (panic); a release build wraps instead: same failing inputs, wrong value instead of panic.",
+    "technique": "Lean 4 proofs over an executable model of the numeric tower (fixnum / bignum / 32-bit ratio / big ratio with the IntoSteelVal canonicalisation and the checked-then-promote case analysis of numbers.rs), refinement to Lean's Rat for all operands; arm tables and repair flags regenerated from the Rust source; correspondence of the real engine with model and specification over boundary operand tuples through 8-12 call shapes; mixed exact/inexact arithmetic compared with IEEE-754 / exact-value reference results (test level)",
+    "level_text": "Theorems (SteelVerif/C10/Props.lean), for ALL canonical exact operands of any magnitude: add, subtract, negate, multiply, divide, quotient, remainder, modulo, abs, gcd, lcm, expt (exact exponent), numerator, denominator and exact-integer-sqrt of the model return a value that denotes the mathematically exact result (Lean Rat / Int) and is canonical (fixnum iff it fits 64 bits, ratio reduced with denominator > 1, 32-bit ratio iff both parts fit, integral ratios are integers); division by zero is an error exactly when the divisor is zero; = < > <= >= decide the order of the denoted values; two canonical values that denote the same number are identical; the specialised immediate-operand paths equal the generic ones. Where the code is defective (abs / reciprocal / expt on the most negative 64-bit and 32-bit values, 32-bit ratio powers, negative bases with negative exponents) the full statement is proved for the repaired code and a guarded `_partial` statement plus a `decide`d counterexample for the code as it is; flags extracted from the Rust source say which applies to the current tree. The model is tied to the Rust on every run by the translator (every pair of exact kinds has a computing match arm in add_two, multiply_two, number_equality, partial_cmp, ...) and by executing the real engine on boundary operand tuples through every call shape and comparing printed results with model and specification. Mixed exact/inexact operations and comparisons are NOT proved: they are tested against 'convert with round-to-nearest, then IEEE binary64' and against the exact values.",
+    "level_note": "Trusted: Lean kernel (axioms propext, Classical.choice, Quot.sound only), the hand-written model (num-bigint / Ratio<BigInt> taken as exact, Ratio<i32>, i32::gcd, isize/i32 checked and overflowing operations modelled from their source), the translator's pattern extraction, the harness, driver and comparison, and CPython's int/float/Fraction for the mixed part. number<->string conversion is exercised (every operand is read, every result printed, plus number->string and string->number round trips) but has no theorem here (C12). floor/round/truncate on ratios, huge exponents (|e| > 4096 or bignum exponents other than base 0) are not covered. Overflow is modelled as in a build with overflow checks (panic); a release build wraps instead: same failing inputs, wrong value instead of panic.",
 }
 
 DRIVER = "c10driver"
@@ -116,7 +116,7 @@ def gen_requests(seed, quick):
         for x in pool:
             add(op, x)
     # binary: directed pairs + seeded sample of the product
-    per_op = 190 if quick else 9000
+    per_op = 190 if quick else 6000
     small_exp = list(range(-6, 9)) + [15, 16, 30, 31, 32, 33, 62, 63, 64, 65, 127, -30, -31, -32, -33, -63, -64]
     for op in BINARY:
         if op == "expt":
@@ -352,8 +352,7 @@ def gen_mixed(seed, quick):
                     continue                          # exact zero divisor: Steel reports division by zero
                 reqs.append((op, [e, f]))
                 reqs.append((op, [f, e]))
-    if quick:
-        reqs = rng.sample(reqs, 1500)
+    reqs = rng.sample(reqs, min(len(reqs), 1500 if quick else 40000))
     lines = []
     for op, xs in reqs:
         if op == "div" and not isinstance(xs[1], float) and xs[1] == 0:
@@ -362,8 +361,15 @@ def gen_mixed(seed, quick):
     return lines
 
 
-def compare_mixed(ctx, stats, env=None):
-    items = gen_mixed(ctx.seed, ctx.quick())
+def parse_mixed_line(line):
+    toks = line.split()
+    xs = [hex2f(t) if t.startswith("f:") else parse_operand(t) for t in toks[1:]]
+    return (line, toks[0], xs)
+
+
+def compare_mixed(ctx, stats, env=None, items=None):
+    if items is None:
+        items = gen_mixed(ctx.seed, ctx.quick())
     reals = run_real([l for (l, _, _) in items], env)
     known = {k.get("class"): k for k in ctx.load_known()}
     ms = stats.setdefault("mixed", {"requests": 0, "evaluations": 0, "agree": 0})
@@ -380,6 +386,10 @@ def compare_mixed(ctx, stats, env=None):
                 cls = "mixed_panic"
             elif op in MIXED_CMP:
                 cls = "mixed_comparison_through_double"
+            elif op == "div":
+                cls = "mixed_division_via_reciprocal"
+            elif want in ("f:8000000000000000", "f:0000000000000000") and r in ("f:8000000000000000", "f:0000000000000000"):
+                cls = "mixed_signed_zero"
             else:
                 cls = "mixed_arithmetic_conversion"
             bucket = stats["known" if cls in known else "viol"].setdefault(cls, [])
@@ -528,7 +538,8 @@ def run(ctx):
 
     # 1. corpus
     corpus = load_corpus()
-    compare(ctx, corpus, "corpus", stats)
+    compare(ctx, [l for l in corpus if "f:" not in l], "corpus", stats)
+    compare_mixed(ctx, stats, items=[parse_mixed_line(l) for l in corpus if "f:" in l])
     ctx.log("corpus: %d requests" % len(corpus))
     # 2. generated tuples
     reqs, pools = gen_requests(ctx.seed, ctx.quick())
@@ -581,6 +592,10 @@ def run(ctx):
         "mixed_exact_inexact_test_level": stats.get("mixed"),
         "notes": stats["notes"],
         "translator": tinfo,
+        "current_code": None if tinfo is None else {
+            flag: ("repaired: the full `_exact` theorems apply" if val else
+                   "pinned: only the `_exact_partial` theorems apply; `*_pinned_counterexample` is replayed by the corpus")
+            for flag, val in tinfo["cfg"].items()},
         "negative_control": stats.get("negative_control"),
         "pool": pools,
         "axioms": pr.get("axioms", {}),
@@ -592,17 +607,27 @@ def run(ctx):
 
 def replay(ctx, path):
     reqs = [l.strip() for l in open(path) if l.strip() and not l.startswith("#")]
-    C.build_harness(ctx, [BIN])
-    model, why = run_model(reqs)
+    if not ALT_BIN:
+        C.build_harness(ctx, [BIN])
+    exact = [r for r in reqs if "f:" not in r]
+    model, why = run_model(exact) if exact else ([], "")
+    want = {}
+    for i, r in enumerate(exact):
+        want[r] = model[i] if model else ("?", "?")
+    for r in reqs:
+        if "f:" in r:
+            _, op, xs = parse_mixed_line(r)
+            want[r] = ("(no model: test level)", mixed_oracle(op, xs))
     reals = run_real(reqs)
     bad = 0
     for i, req in enumerate(reqs):
-        m, s = model[i] if model else ("?", "?")
+        m, s = want[req]
         print("%s\n    model=%s spec=%s" % (req, m, s))
         for sh, raw in reals[i]:
-            flag = "" if norm_real(raw) == s or s in ("undef", "bad") and norm_real(raw) != "panic" else "   <-- differs from spec"
-            if flag:
+            r = norm_float_text(norm_real(raw))
+            ok = (r == s) or (s in ("undef", "bad") and r != "panic")
+            if not ok:
                 bad += 1
-            print("    real[%s]=%s%s" % (sh, raw, flag))
+            print("    real[%s]=%s%s" % (sh, raw, "" if ok else "   <-- differs from spec"))
     print("evaluations differing from the specification: %d" % bad)
     return 1 if bad else 0
